@@ -8,7 +8,7 @@
    (coq/Refuted/C18.v). *)
 From Coq Require Import List NArith Bool Permutation.
 From DesVerif Require Import Ndl.Bytes Ndl.BytesProps Ndl.Grammar Ndl.GrammarProps Ndl.Def Ndl.Transform Ndl.Order
-     Ndl.Total Ndl.Errors Ndl.Cands Ndl.Subst Ndl.Build Ndl.Denote Ndl.DenoteTree Ndl.BuildProps Ndl.BuildConns Ndl.Model Ndl.Doc.
+     Ndl.Total Ndl.Errors Ndl.Cands Ndl.Subst Ndl.Build Ndl.Denote Ndl.DenoteTree Ndl.BuildProps Ndl.BuildConns Ndl.Realisable Ndl.BuildTotal Ndl.Known Ndl.Model Ndl.Doc.
 Import ListNotations.
 Local Open Scope nat_scope.
 
@@ -282,9 +282,10 @@ Qed.
 Print Assumptions C18_ok_iff_no_candidate.
 
 (* ---- build_matches_denotation ---- *)
-(* (1) generics-free descriptions with distinct definition names: the elaborated tree is the denoted tree *)
-Theorem C18_tree_is_denotation : forall fx d n,
-  generics_free d = true -> NoDup (names d) -> transform fx d = Ok n -> denote_tree d = Some n.
+(* (1) descriptions with distinct definition names -- generic definitions and their instantiations included:
+   the elaborated tree is exactly the tree the description denotes top-down (Denote.den_node) *)
+Theorem C18_tree_is_denotation : forall d n,
+  NoDup (names d) -> transform true d = Ok n -> denote_tree d = Some n.
 Proof. exact transform_is_denotation. Qed.
 Print Assumptions C18_tree_is_denotation.
 
@@ -309,7 +310,7 @@ Print Assumptions C18_build_connections.
 (* (1)+(2)+(3): when elaboration and build succeed, the simulation contains exactly the modules (paths,
    registered symbols), gates and connections with link parameters that the description denotes *)
 Theorem C18_build_matches_denotation : forall registered d n st,
-  generics_free d = true -> NoDup (names d) ->
+  NoDup (names d) ->
   transform true d = Ok n -> build registered n = Ok st ->
   exists dn, denote_tree d = Some dn /\
     bs_mods st = fst (fst (denotation dn)) /\
@@ -317,22 +318,47 @@ Theorem C18_build_matches_denotation : forall registered d n st,
     Permutation (state_edges st) (snd (denotation dn)) /\
     (forall p s, In (p, s) (bs_mods st) -> registered s = true).
 Proof.
-  intros registered d n st Hgf Hnd Ht Hb. exists n. split; [exact (transform_is_denotation true d n Hgf Hnd Ht)|].
+  intros registered d n st Hnd Ht Hb. exists n. split; [exact (transform_is_denotation d n Hnd Ht)|].
   destruct (build_modules_gates registered n st Hb) as [H1 H2]. unfold denotation. cbn [fst snd].
   split; [exact H1|]. split; [exact H2|]. split; [exact (build_connections registered n st Hb)|].
   exact (build_symbols_registered registered n st Hb).
 Qed.
 Print Assumptions C18_build_matches_denotation.
 
-(* Not proved (kept as the full statement; exercised by the correspondence check and the monitor only):
-   build_succeeds_when_realisable_partial --
-     forall registered d n, transform true d = Ok n ->
-       (forall p s, In (p, s) (den_mods n []) -> registered s = true) -> NoDup (map fst (den_mods n [])) ->
-       realisable (den_conns n [])   (no statement connects a position to itself, no position gets a third peer) ->
-       exists st, build registered n = Ok st.
-   It needs the invariant that every endpoint of an elaborated tree names an existing gate of an existing
-   submodule (true of transform's output, also after generic replacement because of conform_to); and
-   C18_tree_is_denotation for descriptions with generics (den_node covers the generics-free fragment). *)
+(* (4) build_succeeds_when_realisable, on the elaborated tree.  [realisable registered n] (Realisable.v, executable):
+   every connection endpoint of every node names a chain of submodule fields (indices fitting the fields' shapes) and
+   a gate position of the tree, no node has two submodule fields of one name and shape, every symbol is registered,
+   and -- going through the connection statements in build order -- no statement connects a position to itself and none
+   gives a position a third peer.  Such a tree is built: no panic site of des/src/net/ndl/mod.rs or Gate::connect is
+   reached and the registry never misses *)
+Theorem C18_realisable_builds : forall registered n,
+  realisable registered n = true -> exists st, build registered n = Ok st.
+Proof. exact realisable_builds. Qed.
+Print Assumptions C18_realisable_builds.
+
+(* read backwards: "cannot crate module .. already exists", expect("child"), expect("gate"), "Cannot connect gate to
+   itself", "allready connected to multiple points" and MissingRegistrySymbol are reached only by non-realisable trees *)
+Theorem C18_build_failure_not_realisable : forall registered n,
+  (forall st, build registered n <> Ok st) -> realisable registered n = false.
+Proof. exact build_failure_not_realisable. Qed.
+Print Assumptions C18_build_failure_not_realisable.
+
+(* on the description: outside the known class F11c (Known.v: the description elaborates to a tree with an endpoint
+   that does not resolve or a duplicated field; witness in Refuted/C18.v), successful elaboration + registered symbols +
+   realisable wiring give a successful build *)
+Theorem C18_build_succeeds_when_realisable : forall registered d n,
+  ~ KnownClass d -> transform true d = Ok n ->
+  forallb (fun m => registered (snd m)) (den_mods n []) = true -> wiring_ok (den_conns n []) [] = true ->
+  exists st, build registered n = Ok st.
+Proof. exact build_succeeds_when_realisable. Qed.
+Print Assumptions C18_build_succeeds_when_realisable.
+
+(* Left open (full statements; all three are evaluated on every generated document: the runner prints [den] = 1 only
+   if the tree is realisable, a failing build of a realisable tree would be flagged, and the monitor accepts a
+   missing-gate / missing-child panic only for descriptions of the syntactic shape):
+   - known_class_is_narrow_partial:  forall d, KnownClass d -> f11c_shape d = true
+     (i.e. transform's output is tree_ok unless an inherited submodule's type is named like a type parameter);
+   - realisable_necessary_partial:  forall registered n st, build registered n = Ok st -> realisable registered n = true. *)
 
 (* ---- non-vacuity ---- *)
 Local Open Scope N_scope.
